@@ -550,7 +550,12 @@ def trig(eng, theta):
         if z3.is_true(z3.simplify(uz == -tz)):
             eng.assume(z3.And(c.z == to_z3(c2, "real"), s.z == -to_z3(s2, "real")))
     tab.append((tz, c, s))
+    for fact in TRIG_FACTS:  # further named facts of the real cosine / sine, installed by an extension (pyvc/ext_C12.py)
+        fact(eng, tz, c, s, tab)
     return c, s
+
+
+TRIG_FACTS = []
 
 
 def np_cos(eng, args, kwargs):
@@ -692,15 +697,24 @@ def np_outer(eng, args, kwargs):
 
 
 def np_random_rand(eng, args, kwargs):
-    eng.assumptions.add("np.random.rand: arbitrary reals in (0, 1) (the measure-zero draw 0.0 is ignored)")
+    """np.random.rand() / np.random.rand(n): arbitrary reals in [0, 1).  The draw of all zeros (probability 2^-53n) is ignored.
+    Contract option `almost_surely=[(label, fn(eng, draw) -> z3 Bool)]`: further requirements on the random oracle that hold for
+    almost every draw (the excluded set must be a null set of the cube; the contract author says which one) -- assumed for every
+    draw made while the carrier is executed, and listed in the evidence as `almost-surely:<label>`."""
+    used(eng, "np.random.rand: arbitrary reals in [0, 1), not all of them 0 (the probability-zero draw of all zeros is ignored)")
     n = args[0] if args else None
-    def one():
-        v = fresh("real", "rand")
-        eng.assume(z3.And(v.z > 0, v.z < 1))
-        return v
-    if n is None:
-        return one()
-    return NArr((n,), [one() for _ in range(n)], "real")
+    if len(args) > 1 or kwargs or not (n is None or isinstance(n, int)):
+        raise Unsupported("np.random.rand form")
+    vs = [fresh("real", "rand") for _ in range(1 if n is None else n)]
+    for v in vs:
+        eng.assume(z3.And(v.z >= 0, v.z < 1))
+    if vs:
+        eng.assume(z3.Or(*[v.z > 0 for v in vs]))
+    draw = NArr((len(vs),), vs, "real")
+    for lab, fn in (getattr(eng, "almost_surely", None) or []):
+        eng.assumptions.add(f"almost-surely:{lab} (requirement on the draws of np.random.rand; the excluded draws form a null set)")
+        eng.assume(fn(eng, draw))
+    return vs[0] if n is None else draw
 
 
 def np_argminmax(is_min):
